@@ -18,7 +18,7 @@ PROPS = {
         ],
         "parts": [{
             "component": "sched", "driver": "hqm-sched",
-            "tags": ["batch", "den", "var", "row", "taken", "left", "deal", "feasible", "objective", "optimal", "frag",
+            "tags": ["batch", "den", "var", "row", "taken", "left", "deal", "feasible", "objective", "optimal", "frag", "spec",
                      "c15", "!panic", "!bad-op"],
             "clauses": ["c15."],
             "quick": {"cases": 50, "shards": 16, "extra": []},
